@@ -176,15 +176,43 @@ static int do_replay(const char *ops)
     return hout_nviol ? 1 : 0;
 }
 
+/* capacities around a page boundary (S + 16 bytes of header = a whole number of pages, one less, one more): too many lengths for the closure, so one directed
+ * script per capacity that sends every ring index through both handles: fill to the brim, drain, then records that wrap at every offset of a 7-step cycle */
+static int big_script(void)
+{
+    static unsigned char ref[20000], tmp[20000]; int rn = 0, step, i; unsigned char nextb = 1; pssize r;
+    open_all();
+    snprintf(cur_hist, sizeof cur_hist, "page-script");
+    hout_progress("sig=seq/%s/page-script shmbuf_bfs %d %d", MN[MODE], S, MODE);
+    for (step = 0; step < 40 && !fail_flag; step++) {
+        int wl = step == 0 ? S : step == 1 ? S + 1 : 1 + (step * 977) % (S > 100 ? S - 40 : S), h = 1 + step % 2, rl;
+        for (i = 0; i < wl; i++) { tmp[i] = nextb; nextb = nextb == 250 ? 1 : nextb + 1; }
+        r = p_shm_buffer_write(H[h], tmp, wl, NULL);
+        if (wl <= S - rn) { if (r != wl) { viol("page/write-fits/result", "capacity %d: write of %d bytes with %d free returned %ld", S, wl, S - rn, (long)r); break; } memcpy(ref + rn, tmp, wl); rn += wl; }
+        else { if (r != 0) { viol("page/write-too-long/result", "capacity %d: write of %d bytes with %d free returned %ld", S, wl, S - rn, (long)r); break; } nextb = tmp[0]; }
+        if (p_shm_buffer_get_used_space(H[3 - h], NULL) != rn) { viol("page/used-space", "capacity %d: used space %ld through the other handle, reference %d", S, (long)p_shm_buffer_get_used_space(H[3 - h], NULL), rn); break; }
+        rl = step % 3 == 0 ? rn : (rn * 2) / 3;
+        if (rl == 0) continue;                 /* the result of a zero-length read is not defined by the property */
+        memset(tmp, 0xEE, sizeof tmp);
+        r = p_shm_buffer_read(H[3 - h], tmp, rl, NULL);
+        if (r != rl || memcmp(tmp, ref, rl)) { viol("page/read", "capacity %d: read of %d bytes through the other handle returned %ld or bytes out of FIFO order", S, rl, (long)r); break; }
+        memmove(ref, ref + rl, rn - rl); rn -= rl; n_trans += 2;
+    }
+    close_all();
+    hout_stat("states", 1); hout_stat("transitions", n_trans); hout_stat("mutating_transitions", n_trans); hout_stat("nontrivial", n_trans);
+    return hout_nviol ? 1 : 0;
+}
+
 int main(int argc, char **argv)
 {
     int s; Op z = {0, 0, 0}; long canon_checks = 0; int maxd = 0; char live[512];
     if (argc < 3) return 2;
     S = atoi(argv[1]); MODE = atoi(argv[2]);
     S2 = MODE == 0 ? S : MODE == 1 ? S + 3 : (S - 2 > 1 ? S - 2 : 1);
-    if (S > 60) return 2;
+    if (S > 60 && (S > 16000 || MODE == 2)) return 2;
     hout_open(); p_libsys_init();
     { int n = snprintf(name, sizeof name, "vf08_%d_%d_%d_", (int)getpid(), S, MODE); while (n < 50) name[n++] = 'x'; name[50] = 'A'; name[51] = 0; strcpy(other_name, name); other_name[50] = 'B'; }
+    if (S > 60) return big_script();
     if (argc >= 5 && !strcmp(argv[3], "--replay")) return do_replay(argv[4]);
 
     st[0].rp = 0; st[0].wp = 0; st[0].parent = -1; st[0].op = z; st[0].depth = 0; nst = 1;
